@@ -136,6 +136,10 @@ protected:
         return tracker_ != nullptr;
     }
 
+    Tracker<T> const* tracker() const {
+        return tracker_;
+    }
+
     void tracker_removed() {
         tracker_ = nullptr;
     }
